@@ -68,3 +68,17 @@ package verifier
 //@   ensures[limb-width] implies(err == nil, forall(k, 0, 16, c.ProofWithPis.PublicInputs[k].Limb < pow2(32)))
 //@   ensures[packing] implies(err == nil, forall(j, 0, 4, c.PublicInputs[j] == pack32(c.ProofWithPis.PublicInputs, 4*j)))
 //@   ensures[below-2-128] implies(err == nil, forall(j, 0, 4, c.PublicInputs[j] < pow2(128)))
+
+// C04: the inner circuit's verifier key must not be left to the prover.  `pinned(x)` holds when every
+// leaf of x is a build-time constant (gnark:"-"), a public input (gnark:",public"), or is constrained
+// to equal a term over such values.  Both wrapper circuits are gnark circuit roots (`root`): the
+// classification of their fields is read from the struct tags of the real types.
+//@ func (c *CircuitFixed) Define(api frontend.API) (err error)
+//@   props C04
+//@   circuit sound-only root
+//@   ensures[key-pinned] implies(err == nil, pinned(c.VerifierData))
+
+//@ func (c *VerifierCircuit) Define(api frontend.API) (err error)
+//@   props C04
+//@   circuit sound-only root
+//@   ensures[key-pinned] implies(err == nil, pinned(c.VerifierData))
